@@ -194,6 +194,8 @@ void EGLPNUM_TYPENAME_QSset_precision (
 static void init_basis (
 	QSbasis * B),
   free_cache (
+	EGLPNUM_TYPENAME_QSdata * p),
+  drop_devex_info (
 	EGLPNUM_TYPENAME_QSdata * p);
 
 static int opt_work ( EGLPNUM_TYPENAME_QSdata * p, int *status, int primal_or_dual),
@@ -918,6 +920,22 @@ CLEANUP:
 }
 
 
+/* the devex weights and reference frames of the pricing record are laid out
+ * for the numbers of rows and columns they were built with; a call that adds rows
+ * or columns and keeps the factorization (so that the next dual solve keeps the
+ * pricing record) must drop them - they are rebuilt when they are missing */
+static void drop_devex_info (
+	EGLPNUM_TYPENAME_QSdata * p)
+{
+	if (p->pricing)
+	{
+		EGLPNUM_TYPENAME_EGlpNumFreeArray (p->pricing->pdinfo.norms);
+		ILL_IFFREE(p->pricing->pdinfo.refframe);
+		EGLPNUM_TYPENAME_EGlpNumFreeArray (p->pricing->ddinfo.norms);
+		ILL_IFFREE(p->pricing->ddinfo.refframe);
+	}
+}
+
 EGLPNUM_TYPENAME_QSLIB_INTERFACE int EGLPNUM_TYPENAME_QSnew_col (
 	EGLPNUM_TYPENAME_QSdata * p,
 	const EGLPNUM_TYPE obj,
@@ -933,6 +951,7 @@ EGLPNUM_TYPENAME_QSLIB_INTERFACE int EGLPNUM_TYPENAME_QSnew_col (
 	rval = EGLPNUM_TYPENAME_ILLlib_newcol (p->lp, p->basis, obj, lower, upper, name, p->factorok);
 	CHECKRVALG (rval, CLEANUP);
 
+	drop_devex_info (p);
 	free_cache (p);
 
 CLEANUP:
@@ -962,6 +981,7 @@ EGLPNUM_TYPENAME_QSLIB_INTERFACE int EGLPNUM_TYPENAME_QSadd_cols (
 												 p->factorok);
 	CHECKRVALG (rval, CLEANUP);
 
+	drop_devex_info (p);
 	free_cache (p);
 
 CLEANUP:
@@ -988,6 +1008,7 @@ EGLPNUM_TYPENAME_QSLIB_INTERFACE int EGLPNUM_TYPENAME_QSadd_col (
 												obj, lower, upper, name, p->factorok);
 	CHECKRVALG (rval, CLEANUP);
 
+	drop_devex_info (p);
 	free_cache (p);
 
 CLEANUP:
@@ -1047,6 +1068,7 @@ EGLPNUM_TYPENAME_QSLIB_INTERFACE int EGLPNUM_TYPENAME_QSadd_ranged_rows (
 		/* is moved into the lp struct.                                  */
 	}
 
+	drop_devex_info (p);
 	free_cache (p);
 
 CLEANUP:
@@ -1116,6 +1138,7 @@ EGLPNUM_TYPENAME_QSLIB_INTERFACE int EGLPNUM_TYPENAME_QSadd_rows (
 		/* is moved into the lp struct.                                  */
 	}
 
+	drop_devex_info (p);
 	free_cache (p);
 
 CLEANUP:
